@@ -11,6 +11,7 @@ LEVEL = "model_checking"
 THR_RES = 5.0e3     # residual in units of eps*(|A||x|+|b|); clean tree worst: see evidence (calibrated >= 100x)
 THR_XX = 2.0e2      # |X_give - X_take| in units of eps*cond*|X|
 TOL_CSR = 1e-12
+THR_HOM = 1e-10      # clean tree: ~1e-16 (scaling by a power of ten only changes rounding)
 
 
 def _build():
@@ -27,7 +28,7 @@ def oracle(s, r):
     I = np.eye(N)
     normA = np.abs(At).sum(axis=1).max()
     Xs = {}
-    variants = sorted(k[2:] for k in r if k.startswith("X_") and not k.endswith(("_csr", "_wide_rhs", "_wide_sol")))
+    variants = sorted(k[2:] for k in r if k.startswith("X_") and not k.endswith(("_csr", "_wide_rhs", "_wide_sol", "_hom")))
     for strat in variants:
         Aother = At if strat.startswith("give") else Ag
         X = r["X_" + strat]
@@ -44,6 +45,15 @@ def oracle(s, r):
             j = int(np.argmax((Rm / np.maximum(scale, 1e-300)).max(axis=0)))
             viols.append(("residual:" + strat, "X_%s: A_%s x - e_j is %.3g x eps(|A||x|+|b|) for unit right-hand side j=%d"
                           % (strat, "take" if strat.startswith("give") else "give", ratio, j), {"column": j}))
+        # homogeneity in the right-hand side: s*e_j must give s*x_j for tiny and huge s
+        hom = r["X_%s_hom" % strat].ravel()
+        stats["worst_homogeneity"] = max(stats.get("worst_homogeneity", 0.0), float(hom[:3].max()))
+        for scl, h in zip((1e-20, 1e-150, 1e150, 1e-300), hom):
+            if scl == 1e-300:
+                continue  # products with 1e-300 reach the subnormal range: reported only
+            if not h <= THR_HOM:
+                viols.append(("homogeneity:%s:%g" % (strat.split("_")[0], scl), "solveInPlace(%g * e_j) differs from %g * solveInPlace(e_j) by %.3g "
+                              "(relative to the column): the solve is not homogeneous in the right-hand side" % (scl, scl, h), {}))
         # wide dynamic range right-hand sides
         W, WX = r["X_%s_wide_rhs" % strat], r["X_%s_wide_sol" % strat]
         if not np.all(np.isfinite(WX)):
@@ -79,7 +89,7 @@ def oracle(s, r):
             stats["worst_give_take_ratio"] = max(stats.get("worst_give_take_ratio", 0.0), d)
             if d > THR_XX:
                 viols.append(("variant-vs-take:" + strat, "direct solver %s differs from take by %.3g x eps*cond*|X|" % (strat, d), {}))
-    stats["columns"] = len(variants) * (N + 6)
+    stats["columns"] = len(variants) * (5 * N + 6)
     return viols, stats
 
 
@@ -110,11 +120,11 @@ def main(tier):
         "evaluations": len(results), "distinct_nontrivial": len(nontriv),
         "worst_residual_ratio": tot.get("worst_res_ratio"), "worst_wide_rhs_ratio": tot.get("worst_wide_ratio"),
         "worst_give_vs_take_ratio": tot.get("worst_give_take_ratio"), "worst_csr_rel": tot.get("worst_csr_rel"),
-        "max_condition_number": tot.get("max_cond"),
+        "max_condition_number": tot.get("max_cond"), "worst_homogeneity_deviation": tot.get("worst_homogeneity"),
         "thresholds": {"residual": THR_RES, "give_vs_take": THR_XX, "csr": TOL_CSR},
         "rule": "states = lattice cases (smallest hierarchy grid 5x4 up to 11x16 quick / 17x32 thorough, every split, both "
-                "boundary modes); transitions = solveInPlace calls: every unit right-hand side + 6 wide-dynamic-range "
-                "ones for both strategies; each solution is fed to the OTHER strategy's residual operator",
+                "boundary modes); transitions = solveInPlace calls: every unit right-hand side, the unit right-hand sides "
+                "scaled by 1e-20, 1e-150, 1e150 (homogeneity) and 6 wide-dynamic-range ones for both strategies; each solution is fed to the OTHER strategy's residual operator",
         "samples": [ol.spec_summary(s) for s, _, _ in results[:3]],
         "exhaustive": True,
     }
